@@ -354,6 +354,15 @@ def root_def(u, root):
     return [d for d in u["types"] if d["name"] == root][0]
 
 
+def option_shaped(doc):
+    """root schema anyOf/oneOf [T, null] (what maybe_option recognises)."""
+    for k in ("anyOf", "oneOf"):
+        subs = doc.get(k)
+        if isinstance(subs, list) and len(subs) == 2 and any(x == {"type": "null"} for x in subs):
+            return True
+    return False
+
+
 def classify_cases(ctx, run, corpus):
     """case-level verdicts: typify rejections / compile failures per (universe, root), route divergences."""
     w = run.world
@@ -395,13 +404,12 @@ def classify_cases(ctx, run, corpus):
                 known.append(("C04-2", "route R (add_root_schema) rejects the document of the self-referential root type "
                               "`%s` (root and definition copy map to the same type name); routes D/D2 accept it" % r, ui, r))
                 continue
-            if s == "not-generated" and any(x.get("r") == "panic" and "Option::unwrap()" in x.get("msg", "")
-                                            for x in g.get("steps", [])):
-                site = vlib.run_bin("c04", [dict(run.cases[c], code=False)])[0].get("panic_at", [])
-                if any("type_entry.rs" in x for x in site):
-                    known.append(("C04-3", "route R (add_root_schema) panics at %s for root `%s` (root converted under "
-                                  "Name::Unknown); routes D/D2 succeed" % (site[0].split("/")[-1], r), ui, r))
-                    continue
+            if s == "compile-error" and r not in doc.get("definitions", {}) and \
+                    any(e[0] == "E0428" and ("`%s`" % r) in e[1] for e in w.compile_errors.get(c, [])) and \
+                    option_shaped(doc):
+                known.append(("C04-5", "route R (add_root_schema) names the inner type of the Option-shaped root `%s` by "
+                              "the root's title as well (E0428); routes D/D2 compile" % r, ui, r))
+                continue
         det = {}
         for rt, (s, c) in st.items():
             det[rt] = {"status": s, "steps": w.gen[c].get("steps"), "errors": w.compile_errors.get(c, [])[:3]}
@@ -598,7 +606,7 @@ def run(ctx):
         "ASCII identifiers (serde's char::is_uppercase = 'A'..'Z' on that domain)",
         "the forall-program quantifier is explored by seeded generated universes + curated corpus; the forall-value "
         "quantifier by generated candidates and their mutations that the ORIGIN type accepts",
-        "C04_wire_compat_from_equiv_partial takes the soundness of a wire-equivalence checker as a Section hypothesis",
+        "C04_wire_compat_from_equiv applies where C14's proven checker wire_equiv answers true (a strict structural equivalence); elsewhere the executed value exchange decides",
     ]
     vlib.build_harness(bins=("vh", "c04"))
     corpus = load_corpus()
@@ -651,6 +659,21 @@ def run(ctx):
                "(%d (value, route) exchanges, %d values, %d types)" % (
                    n_eval, len(run_.samples), len(set((s["ui"], s["x"]) for s in run_.samples))),
                not fail_new, json.dumps(fail_new[:2], ensure_ascii=True)[:1800])
+
+    # ---- regression cases of fixed findings: must convert, compile and exchange values on the listed routes
+    reg_bad = []
+    for ci, c in enumerate(corpus):
+        for route in c.get("must_pass_routes", []):
+            for r in us[ci]["roots"]:
+                cc = run_.case_of.get((ci, r, route))
+                if cc is None:
+                    continue
+                oks = [n for n, sm in enumerate(run_.samples) if sm["ui"] == ci and run_.results[n].get(route, {}).get("v") == "ok"]
+                if w.status[cc] != "ok" or not oks:
+                    reg_bad.append({"corpus": c["file"], "root": r, "route": route, "status": w.status[cc],
+                                    "steps": w.gen[cc].get("steps"), "errors": w.compile_errors.get(cc, [])[:3]})
+    ctx.oblige("regression cases of fixed findings (C04-3 / 6953602, one-tuple / d9b019c) convert and exchange values",
+               not reg_bad, json.dumps(reg_bad[:3])[:1500])
 
     # ---- route agreement on values (only where both routes have a module)
     rd_new = []
@@ -744,6 +767,11 @@ def run(ctx):
         if not reported:
             ctx.violation(dict(v, broken_obligations=[b[0] for b in ctx.broken()]))
             reported = True
+    if not reported and reg_bad:
+        ci = [i for i, c in enumerate(corpus) if c["file"] == reg_bad[0]["corpus"]][0]
+        ctx.violation(dict(reg_bad[0], kind="regression-of-fixed-finding", universe=us[ci], rust=rustgen.rs_universe(us[ci]),
+                           document=run_.docs.get((ci, reg_bad[0]["root"])), broken_obligations=[b[0] for b in ctx.broken()]))
+        reported = True
     if not reported and ctx.broken():
         ctx.violation({"broken_obligations": [(b[0], b[2][:1500]) for b in ctx.broken()],
                        "note": "a theorem or the K5-origin correspondence no longer checks; the value exchange found "
